@@ -437,6 +437,7 @@ pub fn c08(_thorough: bool) -> Report {
 
 fn c08_one(class: &str, text: &str, sh: &str, out: &mut Vec<Violation>) {
     let (t2, s2) = (text.to_string(), sh.to_string());
+    crate::pipeline::expect_next("C08.from_grammar.classification", if class.is_empty() { "accepted" } else { class });
     let got = match guarded(move || compile(&t2, &s2)) {
         Err(p) => {
             out.push(viol("C06.pipeline.no_panic", format!("pipeline panicked: {p}"), text, sh, J::s("no panic"), J::s(p.clone()), &format!("panic:{}", p.chars().take(40).collect::<String>()), "c08_classify"));
